@@ -11,7 +11,7 @@ import (
 
 // pool of versions over a tiny alphabet so that equal-but-differently-spelled
 // members (1.0 / 1.00 / 1.0-0, 0 / "") are common.
-var tinyTokens = []string{"0", "1", "00", "01", "a", "~", "+", ".", "-", "10", "b"}
+var tinyTokens = []string{"0", "1", "00", "01", "a", "~", "+", ".", "-", "10", "b", "3", "20", "20000000000000000000", "100000000000000000000", "18446744073709551615", "18446744073709551616"}
 
 func genTinyPart(t *rapid.T, label string, allowHyphen bool) string {
 	n := rapid.IntRange(0, 4).Draw(t, label+"n")
@@ -82,7 +82,7 @@ func genTriple(t *rapid.T) Triple {
 
 var specC02Laws = Register(&Spec[Triple]{
 	Prop: "C02", Name: "laws",
-	Rule: "triples drawn with replacement from generated pools of 3..10 versions over a tiny alphabet {0,1,00,01,a,~,+,.,-,10,b} (epochs 0/1), enriched with respellings of existing members (leading zeros, revision 0 vs none) and with full-alphabet versions; oracle = Compare(x,x)==0, sign antisymmetry, transitivity of <=, congruence of ~ in both argument positions. Non-trivial: the triple contains an equivalent-but-textually-different pair, or three pairwise inequivalent members; distinct by (a,b,c).",
+	Rule: "triples drawn with replacement from generated pools of 3..10 versions over a tiny token alphabet {0,1,00,01,3,10,20,a,b,~,+,.,-} plus four digit runs around and beyond 2^64 (epochs 0/1), enriched with respellings of existing members (leading zeros, revision 0 vs none) and with full-alphabet versions; oracle = Compare(x,x)==0, sign antisymmetry, transitivity of <=, congruence of ~ in both argument positions. Non-trivial: the triple contains an equivalent-but-textually-different pair, or three pairwise inequivalent members; distinct by (a,b,c).",
 	Check: func(c Triple, r *Recorder) error {
 		a, b, cc := c.A.ver(), c.B.ver(), c.C.ver()
 		cmp := func(x, y version.Version) int { return sign(version.Compare(x, y)) }
